@@ -252,22 +252,26 @@ func releaseScratch(b *[]byte) {
 // This function returns the next byte slice that should be read.
 // `b` must be a valid payload coming from a Header frame.
 func (hp *HPACK) Next(hf *HeaderField, b []byte) ([]byte, error) {
-	return hp.nextField(hf, true, 0, b)
+	b, _, err := hp.nextField(hf, true, 0, b)
+	return b, err
 }
 
 // nextField decodes one header field. blockStart says whether b is the start
 // of a header block, which is the only place a dynamic table size update may
 // appear. A CONTINUATION carries on a block rather than starting one.
-func (hp *HPACK) nextField(hf *HeaderField, blockStart bool, fieldsProcessed int, b []byte) ([]byte, error) {
+//
+// decoded reports whether hf holds a field. It is false, with no error, when
+// b ran out before one started: on an empty b, or when all there was in it
+// were dynamic table size updates.
+func (hp *HPACK) nextField(hf *HeaderField, blockStart bool, fieldsProcessed int, b []byte) (rest []byte, decoded bool, err error) {
 	var (
-		n   uint64
-		c   byte
-		err error
+		n uint64
+		c byte
 	)
 
 loop:
 	if len(b) == 0 {
-		return b, nil
+		return b, false, nil
 	}
 
 	c = b[0]
@@ -282,12 +286,12 @@ loop:
 	// https://httpwg.org/specs/rfc7541.html#indexed.header.representation
 	case c&indexByte == indexByte: // 1000 0000
 		if b, n, err = readInt(7, b); err != nil {
-			return b, err
+			return b, false, err
 		}
 
 		hf2 := hp.peek(n)
 		if hf2 == nil {
-			return b, NewError(FlowControlError, fmt.Sprintf("index field not found: %d. table:\n%s", n,
+			return b, false, NewError(FlowControlError, fmt.Sprintf("index field not found: %d. table:\n%s", n,
 				headerFieldsToString(hp.dynamic, maxIndex)))
 		}
 
@@ -300,12 +304,12 @@ loop:
 		// Reading key
 		if c != 64 { // Read key as index
 			if b, n, err = readInt(6, b); err != nil {
-				return b, err
+				return b, false, err
 			}
 
 			hf2 := hp.peek(n)
 			if hf2 == nil {
-				return b, NewError(FlowControlError, fmt.Sprintf("literal indexed field not found: %d. table:\n%s",
+				return b, false, NewError(FlowControlError, fmt.Sprintf("literal indexed field not found: %d. table:\n%s",
 					n, headerFieldsToString(hp.dynamic, maxIndex)))
 			}
 
@@ -329,7 +333,7 @@ loop:
 			if len(b) == 0 {
 				// The field is cut short: its value is in the bytes that have
 				// not arrived yet.
-				return b, ErrUnexpectedSize
+				return b, false, ErrUnexpectedSize
 			}
 
 			scratch := acquireScratch()
@@ -359,12 +363,12 @@ loop:
 		// Reading key
 		if c&15 != 0 { // Reading key as index
 			if b, n, err = readInt(4, b); err != nil {
-				return b, err
+				return b, false, err
 			}
 
 			hf2 := hp.peek(n)
 			if hf2 == nil {
-				return b, NewError(FlowControlError, fmt.Sprintf("non indexed field not found: %d. table:\n%s", n,
+				return b, false, NewError(FlowControlError, fmt.Sprintf("non indexed field not found: %d. table:\n%s", n,
 					headerFieldsToString(hp.dynamic, maxIndex)))
 			}
 
@@ -388,7 +392,7 @@ loop:
 			if len(b) == 0 {
 				// The field is cut short: its value is in the bytes that have
 				// not arrived yet.
-				return b, ErrUnexpectedSize
+				return b, false, ErrUnexpectedSize
 			}
 
 			scratch := acquireScratch()
@@ -408,7 +412,7 @@ loop:
 	// https://tools.ietf.org/html/rfc7541#section-6.3
 	case c&32 == 32: // 001- ----
 		if b, n, err = readInt(5, b); err != nil {
-			return b, err
+			return b, false, err
 		}
 		// A dynamic table size update must be the first thing in a header
 		// block. The peer sends it in the first block after it changed the
@@ -416,11 +420,11 @@ loop:
 		// trailer block can carry one when the SETTINGS frame that prompted it
 		// arrived while the request headers were already in flight.
 		if !blockStart || fieldsProcessed > 0 {
-			return nil, ErrDynamicUpdate
+			return nil, false, ErrDynamicUpdate
 		}
 
 		if n > uint64(hp.maxTableSizeSettings) {
-			return nil, ErrDynamicUpdateMaxTableSize
+			return nil, false, ErrDynamicUpdateMaxTableSize
 		}
 
 		hp.maxTableSize = uint32(n)
@@ -429,7 +433,7 @@ loop:
 		goto loop
 	}
 
-	return b, err
+	return b, err == nil, err
 }
 
 // readInt reads int type from header field.
